@@ -17,8 +17,8 @@ import DosModel.Model.ShareZq
 namespace Dos.G1
 open Dos
 
-/-- base field prime (`group/bn256/constants.go` `P`) -/
-def p : Nat := 21888242871839275222246405745257275088696311157297823662689037894645226208583
+/-- base field prime (`group/bn256/constants.go` `P`, regenerated from /repo) -/
+def p : Nat := Gen.bn256P
 /-- group order (`Order`) -/
 abbrev r : Nat := Share.bn256Order
 
